@@ -52,3 +52,74 @@ def cases(tier, rng=None):
             modifies=['f', 'self._LagrangeVals', 'self._thetaSpline._coeffs'], ensures=[], loops={'*': dict(inv=[])}),
     }
     return [dict(label='FluxSurfaceAdvection.step', struct=None, key=A + '::FluxSurfaceAdvection.step', contracts=C)]
+
+
+# ---------------------------------------------------------------------------------------------------------------------
+# FluxSurfaceAdvection._getLagrangePts: the tables the kernels read.  C10 "field-aligned shift": for the local radius a and
+# local velocity b the stencil consists of the zLagrangePts consecutive z-cells around the foot
+#     shifts[a, b, k] = floor(-v_b * b_z(r_a) * dt / dz) + (k + (-n)//2 + 1),     b_z(r) = 1/sqrt(1 + (r iota(r)/R0)^2),
+# and every stencil point is displaced in theta by EXACTLY iota(r_a) * dz * shift / R0 - the field line through it, with
+# no reduction of the shift modulo the z period (iota is not an integer in general) - where r_a, v_b are the coordinates
+# of the process's OWN global indices (starts + a, starts + b).
+# The tail of the function (barycentric Lagrange weights: np.prod over an axis, np.eye, np.where under np.errstate) is
+# outside the executor's subset; the function is verified on its mechanical backward slice on the two tables
+# (vf/func_slice.py: the dropped statements are rebinding assignments of numpy expressions and cannot change the tables;
+# their line numbers are in the evidence).  The Lagrange weights themselves stay with the bounded class-level check.
+# ---------------------------------------------------------------------------------------------------------------------
+ASL = A + '#slice:FluxSurfaceAdvection._getLagrangePts:self._shifts,self._thetaShifts'
+LY = 'pygyro/model/layout.py'
+
+
+def lagrange_pts_case(order, npts):
+    ir = list(order).index(0)
+    iv = list(order).index(3)
+    lay = {'__class__': LY + '::Layout', '_name': ('const', 'lay'), '_dims_order': ('const', tuple(order)),
+           '_inv_dims_order': ('const', tuple(list(order).index(d) for d in range(4))), '_ndims': ('const', 4),
+           '_starts': 'tuple4int', '_ends': 'tuple4int', '_shape': 'tuple4int'}
+    RS, RE, VS, VE = ('layout._starts[%d]' % ir, 'layout._ends[%d]' % ir, 'layout._starts[%d]' % iv, 'layout._ends[%d]' % iv)
+    r_a = 'eta_grid[0][%s + a]' % RS
+    v_b = 'eta_grid[3][%s + b]' % VS
+    dz = '(eta_grid[2][2] - eta_grid[2][1])'
+    bz = '(1 / sqrt(1 + ({r} * iota({r}) / R0) ** 2))'.format(r=r_a)
+    n = 'self._zLagrangePts'
+    box = '0, {re} - {rs}, 0, {ve} - {vs}, 0, {n}'.format(re=RE, rs=RS, ve=VE, vs=VS, n=n)
+    C = {'iota_fn': dict(abstract=True, pure=True, elementwise=True, returns='float', params_order=['r'], requires=[], ensures=[],
+                         modifies=[]),
+         ASL + '::FluxSurfaceAdvection._getLagrangePts': dict(
+             params={'self': {'__class__': ASL + '::FluxSurfaceAdvection', '_zLagrangePts': npts},
+                     'eta_grid': 'list4arr1', 'layout': lay, 'dt': 'float', 'R0': 'float'},
+             funparams={'iota': 'iota_fn'},
+             requires=['len(eta_grid[2]) >= 3', dz + ' > 0', 'R0 != 0', n + ' >= 1',
+                       '0 <= {s} and {s} <= {e} and {e} <= len(eta_grid[0])'.format(s=RS, e=RE),
+                       '0 <= {s} and {s} <= {e} and {e} <= len(eta_grid[3])'.format(s=VS, e=VE),
+                       # C02 invariant of the layout object
+                       'layout._shape[%d] == %s - %s and layout._shape[%d] == %s - %s' % (ir, RE, RS, iv, VE, VS)],
+             modifies=[],
+             creates={'_shifts': 'iarr3', '_thetaShifts': 'arr3'},
+             ensures=['shape(self._shifts)[0] == {re} - {rs} and shape(self._shifts)[1] == {ve} - {vs} and shape(self._shifts)[2] == {n}'
+                      .format(re=RE, rs=RS, ve=VE, vs=VS, n=n),
+                      'shape(self._thetaShifts)[0] == {re} - {rs} and shape(self._thetaShifts)[1] == {ve} - {vs} and '
+                      'shape(self._thetaShifts)[2] == {n}'.format(re=RE, rs=RS, ve=VE, vs=VS, n=n),
+                      # stencil cells: consecutive, around the foot of the characteristic of the OWN (r, v)
+                      'forall(%s, lambda a, b, k: self._shifts[a, b, k] == floor(-%s * %s * dt / %s) + (k + (-%s) // 2 + 1))'
+                      % (box, v_b, bz, dz, n),
+                      # field alignment: theta displacement = iota(r) * dz * shift / R0, shift NOT reduced modulo the period
+                      'forall(%s, lambda a, b, k: self._thetaShifts[a, b, k] == (%s * iota(%s) / R0) * self._shifts[a, b, k])'
+                      % (box, dz, r_a)]),
+         }
+    return dict(label='_getLagrangePts order=%s n=%s' % (''.join(map(str, order)), npts), struct=None,
+                key=ASL + '::FluxSurfaceAdvection._getLagrangePts', contracts=C)
+
+
+_step_cases = cases
+
+
+def cases(tier, rng=None):
+    out = _step_cases(tier, rng)
+    # flux_surface ordering of the driver (r, v, theta, z) and one with v first; default stencil (6 points) and a symbolic one
+    out.append(lagrange_pts_case((0, 3, 1, 2), ('const', 6)))
+    out.append(lagrange_pts_case((0, 3, 1, 2), 'int'))
+    if tier != 'quick':
+        out.append(lagrange_pts_case((3, 0, 1, 2), 'int'))
+        out.append(lagrange_pts_case((1, 3, 2, 0), ('const', 4)))
+    return out
